@@ -42,6 +42,7 @@ def edge_trees():
         _t("E_choice_default", Cfg("X", B, "x"), Choice("CH", "ch", defaults=[("M2", "X")], children=[Cfg("M1", B, "m1"), Cfg("M2", B, "m2")]), Cfg("Y", B, None, defaults=[("y", "M2")])),
         _t("E_choice_dep", Cfg("X", B, "x"), Choice("CH", "ch", depends=["X"], children=[Cfg("M1", B, "m1"), Cfg("M2", B, "m2")]), Cfg("Y", I, "y", defaults=[("1", "M1"), ("2", "M2"), ("0", None)])),
         _t("E_choice_member_dep", Cfg("X", B, "x"), Choice("CH", "ch", children=[Cfg("M1", B, "m1", depends=["X"]), Cfg("M2", B, "m2"), Cfg("M3", B, "m3", prompt_if="!X")]), Cfg("Y", B, "y", depends=["M1 || M3"])),
+        _t("E_choice_prompt_if", Cfg("X", B, "x", defaults=[("y", None)]), Choice("CH", "ch", children=[Cfg("M1", B, "m1", prompt_if="X"), Cfg("M2", B, "m2"), Cfg("M3", B, "m3")]), Cfg("Y", B, None, defaults=[("y", "M1")])),
         _t("E_choice_late", Choice("CH", "ch", defaults=[("M2", "X"), ("M3", "I > 3")], children=[Cfg("M1", B, "m1"), Cfg("M2", B, "m2"), Cfg("M3", B, "m3")]), Cfg("X", B, "x"), Cfg("I", I, "i", defaults=[("1", None)])),
         _t("E_choice_nested", Choice("CH", "ch", defaults=[("M2", None)], children=[Cfg("M1", B, "m1"), Cfg("M1_SUB", B, "m1 sub", depends=["M1"]), Cfg("M2", B, "m2"), Cfg("M2_NUM", I, "m2 num", depends=["M2"], defaults=[("10", None)])]), Cfg("Y", B, None, defaults=[("y", "M2_NUM = 7")])),
         _t("E_rel_str", Cfg("X", S, "x", defaults=[('"a"', None)]), Cfg("Y", B, "y", depends=['X = "p"']), Cfg("Y2", B, None, defaults=[("y", 'X != "p"')]), Cfg("Y3", B, "y3", depends=['!X = "p"'], help="\nHelp text after a blank line.")),
